@@ -396,6 +396,10 @@ func (ex *Exec) sparseRange(fr *Frame, L *Loop) bool {
 }
 
 func (ex *Exec) execLoop(fr *Frame, L *Loop) {
+	if edgesGuard(fr.incoming[L.header]).IsFalse() {
+		delete(fr.incoming, L.header)
+		return
+	}
 	if ex.sparseRange(fr, L) {
 		return
 	}
